@@ -5,6 +5,7 @@ pub mod c01;
 pub mod c02;
 pub mod c03;
 pub mod l1;
+pub mod c05;
 pub mod c06;
 pub mod c07;
 
@@ -13,6 +14,7 @@ pub fn get(id: &str, tier: Tier) -> Option<Property> {
         "C01" => c01::property(tier),
         "C02" => c02::property(tier),
         "C03" => c03::property(tier),
+        "C05" => c05::property(tier),
         "C06" => c06::property(tier),
         "C07" => c07::property(tier),
         _ => return None,
